@@ -102,6 +102,7 @@ type stats struct {
 	Exhaustive  bool
 	Note        string
 	sampleAt    map[int]bool
+	first       any
 }
 
 func outDir() string {
@@ -153,6 +154,9 @@ func hashCase(name string, raw []byte) uint64 {
 
 func (s *stats) record(raw []byte, v Verdict, render func() any) {
 	s.Evaluations++
+	if s.Evaluations == 1 {
+		s.first = render()
+	}
 	if v.Discard != "" {
 		s.Discards[v.Discard]++
 		return
@@ -172,6 +176,9 @@ func (s *stats) record(raw []byte, v Verdict, render func() any) {
 }
 
 func (s *stats) flush() {
+	if len(s.Samples) == 0 && s.first != nil {
+		s.Samples = []any{s.first}
+	}
 	base := filepath.Join(outDir(), fmt.Sprintf("stats-%s-%s-%s", s.ID, s.Name, shardName()))
 	type out struct {
 		ID          string         `json:"id"`
